@@ -1,3 +1,6 @@
+pub mod c03;
+pub mod c06;
+pub mod c07;
 pub mod c08;
 
 use crate::engine::Runner;
@@ -6,6 +9,9 @@ pub const ALL: [&str; 20] = ["C01", "C02", "C03", "C04", "C05", "C06", "C07", "C
 
 pub fn run(id: &str, r: &mut Runner) {
     match id {
+        "C03" => c03::run(r),
+        "C06" => c06::run(r),
+        "C07" => c07::run(r),
         "C08" => c08::run(r),
         _ => {
             println!("HARNESS-ERROR property {id} has no check yet");
